@@ -35,6 +35,8 @@ pub fn configs(thorough: bool) -> Vec<McConfig> {
     // no constant term in the span of the Jacobian and few degrees of freedom: anything that treats the
     // weighted residuals as a SAMPLE (subtracting their mean, N-1 instead of N-M-P, ...) shows here
     v.push(McConfig { name: "oscillation/dof5/w=1/sd", fns: vec![(Kind::Sinus, vec![0, 1])], truth: vec![1.3, 0.4], coef: vec![3.0], n: 8, xmax: 6.0, base: 1e-3, slope: 1.0, wmode: 1, built: false });
+    // small absolute units (signal 1e-6, noise 1e-9): variances of the order 1e-18 are ordinary numbers
+    v.push(McConfig { name: "decay+offset/units1e-6/w=1/sd", fns: vec![(Kind::Exp, vec![0]), (Kind::One, vec![])], truth: vec![2.5], coef: vec![4e-6, 1e-6], n: 30, xmax: 10.0, base: 2e-9, slope: 1.0, wmode: 1, built: true });
     v.push(McConfig { name: "decay+offset/dof2/unweighted", fns: vec![(Kind::Exp, vec![0]), (Kind::One, vec![])], truth: vec![2.0], coef: vec![3.0, 1.0], n: 5, xmax: 6.0, base: 1e-3, slope: 0.0, wmode: 0, built: false });
     // badly SCALED but perfectly identifiable problems (units): a nanosecond lifetime on a time axis in
     // seconds, amplitudes of 1e9 – the columns of H differ by 9 orders of magnitude
